@@ -92,6 +92,18 @@ def r1(ctx, R):
         R.bad(nc, ca_[0] if ca_ else nc.node, "the clash test sees name=None while CellsImpl.__init__ names the cells after its "
                                               "formula: new_cells(formula=foo) is accepted although foo is a child space or reference",
               stmt="resolve formula name before _can_add")
+    R.inst("auto-generated names avoid the whole namespace (cells, references and child spaces)")
+    n_auto = 0
+    for spec in ("CellsImpl.__init__", "SpaceUpdater.new_space"):
+        f_ = ctx.func(spec)
+        for c in q.calls(f_, name="get_next"):
+            if (call_recv(c) or "").endswith(("cellsnamer", "spacenamer")):
+                n_auto += 1
+                a0 = norm(c.args[0]) if c.args else ""
+                if a0 not in ("space.namespace", "parent.namespace"):
+                    R.bad(f_, c, "auto-namer is given `%s`: an auto-generated name can equal an existing reference or child "
+                                 "space (or cells) of the same space" % a0)
+    R.need(n_auto >= 3, "expected >=3 auto-naming sites, found %d" % n_auto)
     # _can_add truth table
     ca = ctx.func("SharedSpaceOperations._can_add")
     R.inst("_can_add truth table (is model, name visible, name in a sub, same kind)")
